@@ -186,6 +186,37 @@ def run(tier):
     v.obligation("correspondence: Lean driver reproduces every recorded call (trace validation)", not trace_bad,
                  "; ".join("%s :: %s" % (k.op[:200], k.trace_detail[:600]) for k in trace_bad[:3]))
     v.cov["traces_validated_against_impl"] = ntrace
+    # clause 3 across the table cache: a list compiled earlier whose NAME the requested list is a prefix of brings its own,
+    # larger display mapping; the shorter list still has to answer 0 with an error for a cell it cannot display
+    # (seeded change C04-E handed out the cached display table of the longer list)
+    pcases = []
+    for i in range(6 if tier == "quick" else 60):
+        cs = rng.sample("abcdefghijklmnopqrstuvwxyz", 4)
+        dots = rng.sample(["1", "12", "14", "145", "15", "124", "1245", "125", "24", "245", "13", "123"], 4)
+        t1 = "space \\s 0\nsign %s %s\nsign %s %s\nalways %s%s %s\n" % (cs[0], dots[0], cs[1], dots[1], cs[0], cs[1], dots[2])
+        t2 = "sign %s %s\nsign %s %s\n" % (cs[2], dots[2], cs[3], dots[3])
+        n1, n2 = "px%d.ctb" % i, "py%d.ctb" % i
+        setup = ["LOGDUMP 1", "TBL %s %s" % (n1, common.hexbytes(t1)), "TBL %s %s" % (n2, common.hexbytes(t2))]
+        second = "FWD %s 0 20 - 12 %s - -" % (n1, common.wide([ord(cs[0]), ord(cs[1]), 0x20, ord(cs[0])]))
+        first = "FWD %s,%s 0 20 - 12 %s - -" % (n1, n2, common.wide([ord(cs[2]), ord(cs[0]), ord(cs[1])]))
+        pcases.append(common.Case("c04-pfx%da" % i, setup, [first, second], {"i": i}))
+        pcases.append(common.Case("c04-pfx%db" % i, setup, [second], {"i": i}))
+    common.run_cases(exe, pcases, batch=1)
+    for ca, cb in zip(pcases[0::2], pcases[1::2]):
+        if len(ca.out) < 2 or len(cb.out) < 1:
+            continue
+        v.cov["evaluations"] += 1
+        Ra, Rb = common.parse_R(ca.out[1]), common.parse_R(cb.out[0])
+        if Ra is None or Rb is None:
+            continue
+        if Rb["ret"] != 0 or Rb["e"] < 1:
+            v.violation("C04:display:unmapped-cell", "a rule produces a cell the table's display mapping lacks: the call has to return 0 "
+                        "with an error, it answered %s" % cb.out[0][:200], {"script": cb.setup + cb.ops, "result": cb.out[0][:400]})
+        elif (Ra["ret"], Ra["out"]) != (Rb["ret"], Rb["out"]):
+            v.violation("C04:display:prefix-list", "after a list whose name starts with this list's name was compiled, a cell this "
+                        "list cannot display is rendered (%s) where the same call in a fresh process returns 0 with an error"
+                        % ca.out[1][:160], {"script": ca.setup + ca.ops, "result": ca.out[1][:400], "fresh_result": cb.out[0][:400]})
+    dist["prefix_list_pairs"] = len(pcases) // 2
     v.cov["distribution"] = dist
     v.cov["rule"] = ("FWD/BWD calls over %d shipped tables (+ display tables) x generated inputs x modes x capacities, incl. a "
                      "generous-capacity stream for the completeness clause; non-trivial = non-empty output or a failing call; "
